@@ -166,7 +166,16 @@ func analyse(pr *rules.Property, lc core.LoadConfig, tier string, useCHA bool) (
 
 // runControl applies one overlay and prints {"applied":bool,"fired":[keys]}.
 func runControl(pr *rules.Property, name string, lc core.LoadConfig, repo string) {
-	for _, c := range pr.Controls {
+	ctls := pr.Controls
+	if strings.HasPrefix(name, "seed-") {
+		// a seeded change can be tried against any property's rules
+		for _, id := range rules.IDs() {
+			if q := rules.Get(id); q != nil && q != pr {
+				ctls = append(append([]rules.Control{}, ctls...), q.Controls...)
+			}
+		}
+	}
+	for _, c := range ctls {
 		if c.Name != name {
 			continue
 		}
